@@ -64,7 +64,9 @@ def main(argv):
     props_v = os.path.join(COQ, 'theories', 'Props', 'C01.v')
     proofs_ok = True
     if os.path.exists(props_v):
-        proofs_ok, h_ok, unrec = standard_proof_steps(v, PROP, [], ['theories/Props/C01.vo'], ['truth-cli'])
+        proofs_ok, h_ok, unrec = standard_proof_steps(v, PROP, ['argcodec', 'abiletters', 'diffflags', 'timelabels'], ['theories/Props/C01.vo'], ['truth-cli'])
+        if unrec and not v.violations:
+            v.violation('translators no longer recognise a table used by the C01 composition: %s' % unrec[:3], {'class': 'c01-tie1', 'broken': unrec}, no_failing_input=True)
     else:
         h_ok, hout = cargo_build(['truth-cli'])
         if not h_ok: v.obligation('harness build against /repo working tree', False, hout[-1500:])
